@@ -193,6 +193,62 @@ Qed.
 Lemma tx_new_park c : ptx (tx_new c).
 Proof. unfold ptx, tx_new. txs. discriminate. Qed.
 
+(* ------------------------------------------------------------------ a registered application waker
+   is either still registered or was fired *)
+Lemma flush_fires_reader r r' fr w :
+  rx_flush r = (r', fr, w) -> reader_waker r = true -> reader_waker r' = true \/ In WakeReader w.
+Proof.
+  unfold rx_flush. intros H Hw.
+  set (s0 := set_wakers r _ (reader_waker r) (last_remaining_rx_window r)) in *.
+  destruct (flush_loop _ s0 _ 0 0) as [[[[s1 w1] fb] fp]|] eqn:E.
+  - apply flush_loop_park in E. destruct E as (_ & H2 & _).
+    assert (Hs1 : reader_waker s1 = true) by (rewrite H2; subst s0; exact Hw).
+    destruct (0 <? fp); injection H as <- _ <-.
+    + right. rewrite Hs1. left; reflexivity.
+    + left. cbn [set_wakers reader_waker]. exact Hs1.
+  - injection H as <- _ _. left. subst s0. exact Hw.
+Qed.
+
+Lemma rx_dop_fires_reader d r r' w :
+  rx_dop d r r' w -> reader_waker r = true -> reader_waker r' = true \/ In WakeReader w.
+Proof.
+  intros H Hw. destruct H.
+  - eapply flush_fires_reader; eassumption.
+  - rename H0 into Ha. unfold rx_add_remove in Ha. destruct (ooq_add_remove r k p off) as [s1 a] eqn:E.
+    apply ooq_add_remove_park in E. destruct E as (_ & _ & E3 & _).
+    destruct a; try (injection Ha as <- _ <-; left; congruence).
+    destruct (_ && _); [|injection Ha as <- _ <-; left; congruence].
+    destruct (rx_flush s1) as [[s2 fr] w2] eqn:Ef.
+    assert (K : reader_waker s2 = true \/ In WakeReader w2)
+      by (eapply flush_fires_reader; [exact Ef | congruence]).
+    destruct fr; injection Ha as <- _ <-; exact K.
+  - unfold rx_mark_vsock_closed in H0. destruct (vsock_closed r); injection H0 as <- <-.
+    + left; exact Hw.
+    + right. rewrite Hw. left; reflexivity.
+  - unfold rx_enqueue_error in H0. injection H0 as <- <-. right. rewrite Hw. left; reflexivity.
+Qed.
+
+Lemma tx_dop_fires_writer t t' w :
+  tx_dop t t' w -> writer_waker t = true -> writer_waker t' = true \/ In TwWriter w.
+Proof.
+  intros H Hw. destruct H.
+  - unfold mark_vsock_closed in H. injection H as <- <-. right. rewrite Hw. left; reflexivity.
+  - unfold wake_writer in H. injection H as <- <-. right. rewrite Hw. left; reflexivity.
+  - unfold truncate_front in H. destruct (_ =? _); injection H as <- _; left; exact Hw.
+  - unfold grow in H. destruct (_ <=? _); injection H as <- _; left; exact Hw.
+  - left. unfold register_dispatcher_if_empty. destruct (ring t); exact Hw.
+Qed.
+
+Lemma in_rx_wakes w : In WakeReader w -> In VwReader (rx_wakes w).
+Proof.
+  unfold rx_wakes. intro H. apply in_flat_map. exists WakeReader. split; [exact H|left; reflexivity].
+Qed.
+
+Lemma in_tx_wakes w : In TwWriter w -> In VwWriter (tx_wakes w).
+Proof.
+  unfold tx_wakes. intro H. apply in_flat_map. exists TwWriter. split; [exact H|left; reflexivity].
+Qed.
+
 (* ------------------------------------------------------------------ the connection *)
 Section WithCC.
 Context {CC : Type} (cci : cc_iface CC).
@@ -250,6 +306,38 @@ Proof.
     apply pk_set_rx; [exact Hp|]. eapply rx_drop_reader_park; [exact E | apply Hp].
   - destruct (drop_writer (v_tx s)) as [tx1 w] eqn:E. cbn [fst].
     apply pk_set_tx; [exact Hp|]. eapply drop_writer_park; [exact E | apply Hp].
+Qed.
+
+(* ------------------------------------------------------------------ fired or still registered *)
+Definition wr (s : vsock) : Prop := reader_waker (v_rx s) = true \/ In VwReader (v_wakes s).
+Definition ww (s : vsock) : Prop := writer_waker (v_tx s) = true \/ In VwWriter (v_wakes s).
+
+Lemma wr_reach : forall d t (s s' : vsock), reach d t s s' -> wr s -> wr s'.
+Proof.
+  intros d t s s' H. induction H; unfold wr in *; intro K.
+  - exact K.
+  - auto.
+  - rewrite H, H1. exact K.
+  - rewrite H1. destruct K as [K|K]; [|right; apply in_or_app; right; exact K].
+    destruct (rx_dop_fires_reader _ _ _ _ H K) as [K'|K']; [left; exact K'|].
+    right. apply in_or_app. left. rewrite <- in_rev. apply in_rx_wakes. exact K'.
+  - rewrite H0, H1. destruct K as [K|K]; [left; exact K | right; apply in_or_app; right; exact K].
+  - rewrite H0. destruct K as [K|K]; [left; exact K|]. right.
+    destruct H3 as [H3|[_ H3]]; rewrite H3; [exact K | right; exact K].
+Qed.
+
+Lemma ww_reach : forall d t (s s' : vsock), reach d t s s' -> ww s -> ww s'.
+Proof.
+  intros d t s s' H. induction H; unfold ww in *; intro K.
+  - exact K.
+  - auto.
+  - rewrite H0, H1. exact K.
+  - rewrite H0, H1. destruct K as [K|K]; [left; exact K | right; apply in_or_app; right; exact K].
+  - rewrite H1. destruct K as [K|K]; [|right; apply in_or_app; right; exact K].
+    destruct (tx_dop_fires_writer _ _ _ H K) as [K'|K']; [left; exact K'|].
+    right. apply in_or_app. left. rewrite <- in_rev. apply in_tx_wakes. exact K'.
+  - rewrite H1. destruct K as [K|K]; [left; exact K|]. right.
+    destruct H3 as [H3|[_ H3]]; rewrite H3; [exact K | right; exact K].
 Qed.
 
 End WithCC.
